@@ -57,6 +57,9 @@ def experiment_frame_spec(draw, purpose):
       'str_ids': draw(st.booleans()),
       'dup_index': draw(st.sampled_from([0, 0, 0, 2, 5])),
       'int_values': draw(st.integers(0, 4)) == 0,
+      # excluded days (period label -1) inside the pre-test / test / cooldown span, e.g. a holiday taken out of the analysis
+      'holes': sorted(set(draw(st.lists(st.integers(0, N - 1), max_size=3)))) if (purpose in ('c06', 'c07', 'c18') and draw(st.integers(0, 3)) == 0) else [],
+      'ctl_cool_cost': draw(st.sampled_from([0, 0, 3, 15])),
       'missing_row': draw(st.integers(0, 200)) if (purpose == 'c19' and draw(st.integers(0, 3)) == 0) else None,
   }
   if purpose == 'c19':
@@ -101,11 +104,22 @@ def materialise(spec, drop_unassigned=False, permute=True, split_first_treatment
   nb, npre, nt, nc, na = spec['n_before'], spec['n_pre'], spec['n_test'], spec['n_cool'], spec['n_after']
   N = nb + npre + nt + nc + na
   sem = ['un_before'] * nb + ['pre'] * npre + ['test'] * nt + ['cool'] * nc + ['un_after'] * na
+  n_pre_left, n_test_left = npre, nt
+  for h in spec.get('holes', []):
+    # keep at least 3 pre-test days (C19: 8) and one test day
+    if sem[h] == 'pre' and n_pre_left > (8 if spec['purpose'] == 'c19' else (10 if spec.get('cost', {}).get('scenario') == 'variable' and spec['purpose'] == 'c07' else 3)):
+      sem[h] = 'un_hole'
+      n_pre_left -= 1
+    elif sem[h] == 'test' and n_test_left > 1:
+      sem[h] = 'un_hole'
+      n_test_left -= 1
+    elif sem[h] == 'cool' and sum(1 for x in sem if x == 'cool') > 1:
+      sem[h] = 'un_hole'
   lab = dict({'group_control': 1, 'group_treatment': 2, 'period_pre': 0, 'period_test': 1, 'period_cooldown': 2}, **spec['labels'])
   after_label = spec['after_label']
   if after_label in (lab['period_pre'], lab['period_test'], lab['period_cooldown']):
     after_label = -1
-  plabel = {'un_before': -1, 'pre': lab['period_pre'], 'test': lab['period_test'], 'cool': lab['period_cooldown'], 'un_after': after_label}
+  plabel = {'un_hole': -1, 'un_before': -1, 'pre': lab['period_pre'], 'test': lab['period_test'], 'cool': lab['period_cooldown'], 'un_after': after_label}
   # date axis with gaps
   offs = []
   cur = spec['start']
@@ -163,6 +177,8 @@ def materialise(spec, drop_unassigned=False, permute=True, split_first_treatment
         if g['g'] == 't':
           c = g['clv'] * cs['spend'] * is_test + cs['cool_spend'] * is_cool * 1.0
           c = c * (1 + ((d_idx + gi) % 3) / 4.0)
+        if cs['scenario'] == 'fixed' and g['g'] == 'c' and spec.get('ctl_cool_cost'):
+          c = spec['ctl_cool_cost'] * is_cool * 1.0       # e.g. the campaign is rolled out everywhere after the test
         if cs['scenario'] == 'ctl_test_only' and g['g'] == 'c':
           c = (g['clv'] / 4.0) * is_test
         if cs['scenario'] == 'pre_only' and g['g'] in ('c', 't') and gi % 2 == 0:
